@@ -259,6 +259,23 @@ def site_for(cls, cmds, msg=""):
         return "pivot-is-constant" if m and m.group(1) in ("true", "false") else "pivot-term"
     if cls.startswith("leaf"):
         return "pop" if any(c["k"] == "pop" for c in cmds) else "nopop"
+    if cls == "resolvent-differs-from-stated":
+        # which literals the stated clause lacks (or has in excess): kinds only, so that the site names the shape of the gap
+        m = re.search(r"computed resolvent (\[.*\]), stated (\[.*\])", msg, re.S)
+        if m:
+            try:
+                comp, stated = eval(m.group(1)), eval(m.group(2))
+
+                def kind(l):
+                    t, pos = l
+                    k = "ite-aux" if t.startswith(".ite") else "frame" if t.startswith(".frame") else \
+                        "or-term" if t.startswith("(or ") else "and-term" if t.startswith("(and ") else "atom"
+                    return ("" if pos else "neg-") + k
+                extra = sorted({kind(l) for l in comp if l not in stated})
+                lack = sorted({kind(l) for l in stated if l not in comp})
+                return "extra:%s;lacking:%s" % ("+".join(extra) or "-", "+".join(lack) or "-")
+            except Exception:
+                pass
     return "any"
 
 
